@@ -328,7 +328,7 @@ PURE_PREDS = ('big', 'zst', 'needs_drop')
 
 
 class State:
-    __slots__ = ('env', 'fenv', 'events', 'counter', 'pure', 'visits', 'blocks', 'mem', 'stack', 'body', 'depth', 'decided', 'selfty')
+    __slots__ = ('env', 'fenv', 'events', 'counter', 'pure', 'visits', 'blocks', 'mem', 'stack', 'body', 'depth', 'decided', 'selfty', 'subst')
 
     def __init__(self):
         self.env = {}     # local key -> value; key = n at depth 0, (n, depth) inside a spliced callee
@@ -343,6 +343,7 @@ class State:
         self.body = None  # body of the current frame (None = the evaluator's root body)
         self.depth = 0
         self.selfty = None  # concrete Self of the provided trait method being spliced, if any
+        self.subst = None   # generic parameter name -> concrete type of the generic helper being spliced, if any
         self.decided = {}  # switch discriminant value -> ('eq', v) | ('ne', frozenset(values)) already taken on this path
 
     def clone(self):
@@ -360,6 +361,7 @@ class State:
         s.depth = self.depth
         s.decided = dict(self.decided)
         s.selfty = self.selfty
+        s.subst = self.subst
         return s
 
 
@@ -783,6 +785,11 @@ class Evaluator:
         if cand is None and fn.get('trait') and st.selfty and str(fn.get('full', '')).startswith('<Self as '):
             # a required method called from a provided method of a crate-private trait, spliced for a concrete Self
             cand = facts.bodies.get('<' + st.selfty + fn['full'][len('<Self'):])
+        if cand is None and fn.get('trait') and st.subst and str(fn.get('full', '')).startswith('<') and ' as ' in fn['full']:
+            # `<S as Handle<T>>::from_internal` inside a generic helper spliced for concrete S (`new_channel::<T, Sender<T>, ..>`)
+            who = fn['full'][1:fn['full'].index(' as ')]
+            if who in st.subst:
+                cand = facts.bodies.get('<' + st.subst[who] + fn['full'][1 + len(who):])
         if cand is not None and not inlinable(cand) and canon(cand.key) in ('pointer::KanalPtr::copy', 'pointer::KanalPtr::write', 'pointer::KanalPtr::read') \
                 and self.body.key.startswith('pointer::KanalPtr::') and cand.j.get('def_kind') in ('Fn', 'AssocFn'):
             # inside pointer.rs one KanalPtr primitive may be written in terms of another (`write(d)` = `copy(&d); forget(d)`):
@@ -833,6 +840,8 @@ class Evaluator:
                 st.depth = d - 1
                 if 'selfty' in fr:
                     st.selfty = fr['selfty']
+                if 'subst' in fr:
+                    st.subst = fr['subst']
                 if fr.get('wrap'):
                     rv = wrap_value(fr['wrap'], rv)
                 self.assign(st, fr['dest'], rv, t.get('at'), fr['bb'])
@@ -1068,9 +1077,13 @@ class Evaluator:
                     continue
                 if callee is not None and t.get('target') is not None:
                     st.events.append(Event('inline', idx=len(st.events), name=name, args=args, at=t.get('at'), bb=b, fn=fn, extra={'body': callee.key}))
-                    st.stack.append({'body': st.body, 'visits': st.visits, 'dest': t['dest'], 'target': t['target'], 'bb': b, 'selfty': st.selfty})
+                    st.stack.append({'body': st.body, 'visits': st.visits, 'dest': t['dest'], 'target': t['target'], 'bb': b, 'selfty': st.selfty, 'subst': st.subst})
                     if fn and fn.get('trait') and fn.get('args') and callee.key == fn.get('path') and fn['args'][0] != 'Self':
                         st.selfty = fn['args'][0]
+                    gens = callee.j.get('generics') or []
+                    if fn and fn.get('args') and len(gens) == len(fn['args']) and not fn.get('trait'):
+                        outer = st.subst or {}
+                        st.subst = {g: outer.get(a, a) for g, a in zip(gens, fn['args']) if g != a}
                     st.depth += 1
                     st.body = callee
                     st.visits = {}
